@@ -257,6 +257,29 @@ class Check:
             self.broken.append({'kind': 'correspondence', 'name': name, 'count': len(bad), 'first': bad[0]})
         return bad
 
+    def again(self, api, fn, jobs, first, n=400, show=None):
+        """history independence: the results `first` were computed once (usually in pool workers, in generation order); a sample of
+        the same calls is made again here, in ONE process and in another order. A call whose result depends on the calls made
+        before it (a memo keyed on too little, a scratch object shared between calls — the seeded changes of round h) returns
+        something else, and then at most one of the two results can be the one the property prescribes."""
+        idx = list(range(len(jobs)))
+        self.rng.shuffle(idx)
+        idx = idx[:n]
+        done = 0
+        for i in idx + idx[::-1][:n // 4]:
+            done += 1
+            self.evals += 1
+            try:
+                got = fn(jobs[i])
+            except Exception as e:  # noqa
+                got = 'harness-exc ' + type(e).__name__
+            if got != first[i]:
+                rep = {'api': api + ' — made twice in one process with other calls in between', 'call': show(jobs[i]) if show else list(jobs[i]) if isinstance(jobs[i], tuple) else jobs[i]}
+                self.fail(None, {'clause': 'the same call made again returns something else (the result depends on the calls made before)',
+                                 'first_time': str(first[i])[:300], 'again': str(got)[:300], **rep}, rep)
+                break
+        self.dist['calls_made_again_in_another_order'] = self.dist.get('calls_made_again_in_another_order', 0) + done
+
     # ---- oracle side
     def fail(self, key, what, replay):
         """a property failure observed on the real implementation. `key`: known-finding class or None"""
